@@ -113,7 +113,12 @@ def build(cs, tier):
         if rng.random() < 0.2 and h.sess.model.boot is not None:
             # hide / unlink the boot file by one of its names
             names = h.sess.model.names_of(bop['cid'])
-            if len(names) >= 1 and rng.random() < 0.5:
+            # a boot image without any name keeps only its load size when reopened (documented:
+            # "we only know the number of emulated sectors"), so only fully hide images whose
+            # load size covers them
+            last = h.sess.model.boot['entries'][-1]
+            can_hide_all = last['media_name'] == 'noemul' and last['boot_load_size'] is None
+            if len(names) >= (1 if can_hide_all else 2) and rng.random() < 0.5:
                 ns, p = rng.choice(names)
                 h.apply({'op': 'rm_hard_link', '%s_path' % ns: p})
             elif names:
